@@ -40,6 +40,14 @@ pub fn compose_table(lang: &str) -> Vec<(&'static str, &'static str, char)> {
     }
 }
 
+/// One-to-one canonical mappings applied together with the compositions (user-defined language only).
+pub fn singleton_table(lang: &str) -> Vec<(char, char)> {
+    match lang {
+        "xk" => vec![('\u{212b}', '\u{c5}'), ('\u{1f71}', '\u{3ac}')],
+        _ => vec![],
+    }
+}
+
 /// Letters folded to two letters (no decomposed form).
 pub fn expanding_table(lang: &str) -> Vec<(char, &'static str)> {
     match lang {
@@ -70,6 +78,7 @@ pub fn accents(lang: &str) -> Vec<Accent> {
 /// Greedy left-to-right composition of base+mark pairs the language documents.
 pub fn compose(lang: &str, input: &[char]) -> Vec<char> {
     let acc = accents(lang);
+    let single = singleton_table(lang);
     let mut out = Vec::with_capacity(input.len());
     let mut i = 0;
     while i < input.len() {
@@ -80,7 +89,7 @@ pub fn compose(lang: &str, input: &[char]) -> Vec<char> {
                 continue;
             }
         }
-        out.push(input[i]);
+        out.push(single.iter().find(|(from, _)| *from == input[i]).map(|(_, to)| *to).unwrap_or(input[i]));
         i += 1;
     }
     out
